@@ -62,8 +62,10 @@ def landscaper_fit_contract(pre):
     return Contract(XMOD, "PersistenceLandscaper.fit", make_args, ensures=ensures, definedness="P", variant=pre)
 
 
-def imager_fit_relational():
-    """two pre-states, same pixel size, same data -> same post-state"""
+def imager_fit_relational(extent="positive"):
+    """two pre-states, same pixel size, same data -> same post-state.
+    extent='positive': the data span a positive extent on both axes (C12's domain); extent='any': no such assumption -
+    data tied along an axis (equal births, equal persistences, a single point) must be forgotten/learned like any other."""
     def make_args(eng):
         o1 = make_wf_object(eng, get_cls(eng))
         ps = o1.fields["_pixel_size"]
@@ -77,9 +79,10 @@ def imager_fit_relational():
                           "_ppnts": Arr((rp + 1,), lambda idx: p0 + idx[0] * ps, dtype="float"),
                           "weight": None, "kernel": None, "weight_params": {}, "kernel_params": {}})
         D, n = sym_diagram(eng, "D", lo=1)
-        i1, i2, j1, j2 = [eng.fresh_int(nm, lo=0, hi=n) for nm in ("wi1", "wi2", "wj1", "wj2")]
-        eng.assume(zb(lift(D.get(i1, 0)) < D.get(i2, 0)))
-        eng.assume(zb(lift(D.get(j1, 1) - D.get(j1, 0)) < (D.get(j2, 1) - D.get(j2, 0))))
+        if extent == "positive":
+            i1, i2, j1, j2 = [eng.fresh_int(nm, lo=0, hi=n) for nm in ("wi1", "wi2", "wj1", "wj2")]
+            eng.assume(zb(lift(D.get(i1, 0)) < D.get(i2, 0)))
+            eng.assume(zb(lift(D.get(j1, 1) - D.get(j1, 0)) < (D.get(j2, 1) - D.get(j2, 0))))
         return {"o1": o1, "o2": o2, "D": D}, {"o1": o1, "o2": o2}
 
     def script(eng, a):
@@ -101,11 +104,13 @@ def imager_fit_relational():
         kp = e.fresh_int("kp", lo=0, hi=lift(f1["_resolution"][1]) + 1)
         out.append(("same_pers_mesh", lift(f1["_ppnts"].get(kp)) == f2["_ppnts"].get(kp), "P"))
         return out
-    return Contract(IMOD, CLS + ".fit", make_args, ensures=ensures, definedness="P", script=script, variant="relational:two-pre-states")
+    return Contract(IMOD, CLS + ".fit", make_args, ensures=ensures, definedness="P", script=script, variant="relational:two-pre-states,extent=%s" % extent)
 
 
-def fit_transform_contract():
-    """fit_transform(X) leaves the same state and returns the same images as fit(X) followed by transform(X)"""
+def fit_transform_contract(skew="default"):
+    """fit_transform(X[, skew]) leaves the same state and returns the same images as fit(X[, skew]) followed by transform(X[, skew])"""
+    kw = {} if skew == "default" else {"skew": skew}
+
     def make_args(eng):
         def mk():
             o = make_wf_object(eng, get_cls(eng))
@@ -117,15 +122,16 @@ def fit_transform_contract():
             o.fields.update({"weight": user_weight, "kernel": user_kernel, "weight_params": {"wp": 1}, "kernel_params": {"kp": 2}})
         D, n = sym_diagram(eng, "D", lo=1)
         i1, i2, j1, j2 = [eng.fresh_int(nm, lo=0, hi=n) for nm in ("wi1", "wi2", "wj1", "wj2")]
+        pers = (lambda k: D.get(k, 1)) if skew is False else (lambda k: D.get(k, 1) - D.get(k, 0))
         eng.assume(zb(lift(D.get(i1, 0)) < D.get(i2, 0)))
-        eng.assume(zb(lift(D.get(j1, 1) - D.get(j1, 0)) < (D.get(j2, 1) - D.get(j2, 0))))
+        eng.assume(zb(lift(pers(j1)) < pers(j2)))
         return {"o1": o1, "o2": o2, "D": D}, {"o1": o1, "o2": o2, "D": D, "n": n}
 
     def script(eng, a):
         m = eng.module(IMOD)
-        r1 = eng.call(m.find_function(CLS + ".fit_transform"), [a.o1, a.D], {})
-        eng.call(m.find_function(CLS + ".fit"), [a.o2, a.D], {})
-        r2 = eng.call(m.find_function(CLS + ".transform"), [a.o2, a.D], {})
+        r1 = eng.call(m.find_function(CLS + ".fit_transform"), [a.o1, a.D], dict(kw))
+        eng.call(m.find_function(CLS + ".fit"), [a.o2, a.D], dict(kw))
+        r2 = eng.call(m.find_function(CLS + ".transform"), [a.o2, a.D], dict(kw))
         return (r1, r2)
 
     def ensures(a, res):
@@ -148,11 +154,11 @@ def fit_transform_contract():
             kb = e.fresh_int("kb", lo=0, hi=lift(f1["_resolution"][0]) + 1)
             out.append(("same_birth_corners", lift(b1["_bpnts"].get(kb)) == b2["_bpnts"].get(kb), "P"))
         return out
-    return Contract(IMOD, CLS + ".fit_transform", make_args, ensures=ensures, definedness="P", script=script, variant="vs fit;transform")
+    return Contract(IMOD, CLS + ".fit_transform", make_args, ensures=ensures, definedness="P", script=script, variant="vs fit;transform,skew=%s" % skew)
 
 
 def all_contracts(tier):
-    cs = [landscaper_fit_contract(p) for p in ("fresh", "user_start", "user_stop", "user_both", "refit")] + [imager_fit_relational(), fit_transform_contract()]
+    cs = [landscaper_fit_contract(p) for p in ("fresh", "user_start", "user_stop", "user_both", "refit")] + [imager_fit_relational("positive"), imager_fit_relational("any")] + [fit_transform_contract(k) for k in ("default", True, False)]
     t = img_table()
     t[(IMOD, "_transform")] = Contract(IMOD, "_transform", None, summary=transform_summary)
     return cs, t
